@@ -239,7 +239,19 @@ class ReceivePaths(Job):
         self.bounds = dict(offer=mode, offered_name_len=n, output_file=outsel, accept_file=accept, zip_member_name_len=nmember,
                            alphabet="every Unicode code point except surrogates (so '/', '.', NUL, anything)",
                            sandbox="cwd /w with file f, file f.tmp, directory d containing file f and directory s, dangling symlink l -> /e/p")
-        self.must_reach = ()
+        # vacuity: the outcome classes this slice of the input space must contain (a transfer that completes, one that is refused, a hostile archive)
+        mr = []
+        if mode == "file":
+            if n >= 1 or outsel in ("file", "new"):
+                mr.append("nt:done")
+            if outsel in ("none", "dir") or not accept:
+                mr.append("nt:rejected")
+        else:
+            if n >= 1:
+                mr += ["nt:rejected", "nt:malicious-zip"] + (["nt:done"] if nmember >= 1 else [])
+            else:
+                mr.append("nt:rejected")
+        self.must_reach = tuple(mr)
 
     def run(self, name, member, answer):
         fs = FS()
@@ -397,16 +409,16 @@ class PathModel(Job):
 def jobs(tier):
     thorough = tier == "thorough"
     J = [PathModel()]
-    maxn = 4 if thorough else 3
+    maxn = 8 if thorough else 5
     for n in range(0, maxn + 1):
         for outsel in ("none", "new", "file", "dir"):
             for accept in (True, False):
                 J.append(ReceivePaths("file", n, outsel, accept, 0))
-    for n in ((1, 2) if thorough else (1,)):
-        for nm in (range(0, 5) if thorough else range(0, 4)):
+    for n in ((1, 2, 3, 4) if thorough else (1, 2)):
+        for nm in (range(0, 9) if thorough else range(0, 6)):
             for outsel in ("none", "dir"):
                 J.append(ReceivePaths("directory", n, outsel, True, nm))
-    for n in (0, 2, 3):
+    for n in ((0, 2, 3, 4, 5) if thorough else (0, 2, 3)):
         J.append(ReceivePaths("directory", n, "none", False, 1))
     return J
 
@@ -417,7 +429,7 @@ ASSUMPTIONS = [
     "os.path.join/basename/normpath/abspath re-implemented over symbolic strings (posix semantics) and differential-tested against the real posixpath on 4000 random strings per run",
     "ZipFile.extract(member, path) writes only beneath `path` after dropping '', '.', '..' components and leading separators (CPython's documented behaviour)",
     "the sibling <destination>.tmp used while a file is being received counts as part of the destination mechanism (it is truncated without asking if it exists)",
-    "offered names up to 3/4 characters and zip member names up to 3/4 characters over the whole Unicode range",
+    "offered names up to 5 (quick) / 8 (thorough) characters and zip member names up to 5 / 8 characters over the whole Unicode range",
 ]
 
 if __name__ == "__main__":
